@@ -1,2 +1,1 @@
 import RV.Scalar
-import RV.Props.C12
